@@ -19,10 +19,9 @@ from . import core
 PROP = "C19"
 DRIVER = "drv_copy"
 LEAN_MODULES = ["MesaModel.Props.C19"]
-THEOREMS_ALL = ["Mesa.Copy." + t for t in (
+THEOREMS = ["Mesa.Copy." + t for t in (
     "C19_cells_see_own_layers", "C19_copy_sees_own_layers", "C19_copy_faithful", "C19_copy_detached",
     "C19_spaces_never_share", "C19_original_untouched_by_copy", "C19_reject_unchanged")]
-THEOREMS = []
 COUNTS = {"quick": 400, "thorough": 12000}
 HEADER_LINES = 1
 TRUSTED = [
@@ -186,8 +185,12 @@ class Impl:
         if w[0] == "copy":
             if self.o.impl.space is None:
                 return "err NoSpace"
-            self.c = Side(clone_impl(self.o.impl, w[1]))
-            self.trace.append(("copied", w[1], self.o.snapshot(), self.c.snapshot(), identity_problems(self.o, self.c)))
+            try:
+                self.c = Side(clone_impl(self.o.impl, w[1]))
+                self.trace.append(("copied", w[1], self.o.snapshot(), self.c.snapshot(), identity_problems(self.o, self.c)))
+            except Exception as e:  # noqa: BLE001  a copy that cannot be made or observed is a property failure
+                self.trace.append(("unusable", w[1], f"{type(e).__name__}: {e}"))
+                return "err Crash"
             return "ok"
         side = "o"
         if w[0] in ("o", "c"):
@@ -196,12 +199,18 @@ class Impl:
             return "err NoCopy"
         me = self.o if side == "o" else self.c
         other = self.c if side == "o" else self.o
-        before = other.snapshot() if other is not None else None
-        out = me.line(w)
-        if other is not None:
-            after = other.snapshot()
-            if after != before:
-                self.trace.append(("leak", side, " ".join(w), before, after))
+        try:
+            before = other.snapshot() if other is not None else None
+            out = me.line(w)
+            if other is not None:
+                after = other.snapshot()
+                if after != before:
+                    self.trace.append(("leak", side, " ".join(w), before, after))
+        except Exception as e:  # noqa: BLE001
+            if self.c is None:
+                raise  # before any copy exists this is the cells harness' business
+            self.trace.append(("unusable", side + " " + " ".join(w), f"{type(e).__name__}: {e}"))
+            return "err Crash"
         return out
 
 
@@ -224,6 +233,8 @@ def oracle(sc, obs):
                 bad.append(f"faithful: the {how} copy differs from the original in its {part}")
             for p in ident:
                 bad.append(f"detached-identity: after {how}: {p}")
+        elif ev[0] == "unusable":
+            bad.append(f"copy-unusable: '{ev[1]}' raised {ev[2]} (a copy must behave like a freshly built space)")
         elif ev[0] == "leak":
             _, side, op, before, after = ev
             part = next((n for n, a, b in zip(("dump", "connections", "capacities", "layers"), before, after) if a != b), "?")
